@@ -32,7 +32,11 @@ WithImplicitRecv(c) ==
 
 Opt(e, o) == \E k \in DOMAIN e.c.opts : e.c.opts[k] = o
 
-SubMD(want, got) == \A k \in DOMAIN want : Has(got, k) /\ got[k] = want[k]
+\* every promised key is there with its values, in order and adjacent (a trailers-only response carries header and
+\* trailer metadata in one block, so a key used for both shows both value lists)
+SubMD(want, got) == \A k \in DOMAIN want :
+                      /\ Has(got, k)
+                      /\ \E i \in 1..(Len(got[k]) - Len(want[k]) + 1) : SubSeq(got[k], i, i + Len(want[k]) - 1) = want[k]
 
 -----------------------------------------------------------------------------
 StatusOK(e, c, v) ==
